@@ -151,12 +151,17 @@ def gen_C11(rng, tier):
     return out + GP.family_cases(rng, tier)
 def gen_C12(rng, tier):
     if tier == 'quick':
-        return GP.dj_small_exhaustive(rng, 3, 2) + GP.dj_random(rng, 1200, nmax=7, oor_p=0.0) + GP.dj_families(rng, tier)
-    return GP.dj_small_exhaustive(rng, 3, 8) + GP.dj_small_exhaustive(rng, 4, 1) + GP.dj_random(rng, 15000, nmax=30, oor_p=0.0) + GP.dj_families(rng, tier)
+        return GP.dj_small_exhaustive(rng, 3, 2) + GP.dj_random(rng, 1200, nmax=7, oor_p=0.0) + GP.dj_families(rng, tier) + GP.dj_funnel(rng, 12000) + GP.dj_wide(rng, 12000)
+    return GP.dj_small_exhaustive(rng, 3, 8) + GP.dj_small_exhaustive(rng, 4, 1) + GP.dj_random(rng, 15000, nmax=30, oor_p=0.0) + GP.dj_families(rng, tier) \
+        + GP.dj_funnel(rng, 150000) + GP.dj_wide(rng, 150000) + GP.dj_wide(rng, 30000, nmax=16)
 def gen_C19(rng, tier):
     k = 400 if tier == 'quick' else 6000
     return GP.family_cases(rng, tier) + GP.dj_families(rng, tier) + GP.random_cases(rng, k, nmax=10, oor_p=0.0) + GP.dj_random(rng, k, nmax=10, oor_p=0.0) \
         + (GP.all_graph_cases(rng, 'D', 3, pairs_per_graph=1) if tier == 'quick' else GP.all_graph_cases(rng, 'D', 4, pairs_per_graph=1, sample=20000))
+def adaptive_C19(run_only, rng, tier, log):
+    cs = GP.climb_scans(run_only, rng, 24 if tier == 'quick' else 240, log=log)
+    log['what'] = 'hill-climb on scans/bound over weighted digraphs (Dijkstra, bound V+E+1) and digraphs (all-predecessor BFS, bound V+E); best ratio reached per kind'
+    return cs
 def seg_C11(case, k): return [0, 1] if k in (0, 1) else None
 def seg_C12(case, k): return [0, 1]
 def seg_C19(case, k):
@@ -180,7 +185,59 @@ def gen_C15(rng, tier):
     return GI.bin_cases(rng, k, cuts=True) + GI.txt_bad_cases(rng, 6 * k)
 def io_nontrivial(c, I): return len(c.split(':', 1)[1].strip()) > 8
 
+def gen_C18(rng, tier):
+    k = 260 if tier == 'quick' else 4000
+    out = []
+    for _ in range(k):
+        cls = rng.choice(['D', 'U']); lk = rng.choice(['none', 'int', 'str'])
+        h = G.history(rng, cls, lk, maxops=rng.choice([6, 14, 25]), reject_p=0.0, force_p=0.08, sizes=(0, 1, 2, 3, 4, 5, 6))
+        T = rng.choice([2, 2, 3, 4, 8] if tier == 'quick' else [2, 3, 4, 8, 16]); R = rng.choice([1, 2, 3] if tier == 'quick' else [2, 4, 8])
+        sub = ' '.join(str(v) for v in range(7) if rng.random() < 0.45)
+        out.append('CONC %s | %d %d %d %d | %s' % (h, T, R, rng.randint(0, 5), rng.randint(0, 5), sub))
+    return out
+def _sample(rng, xs, k): return xs if len(xs) <= k else rng.sample(xs, k)
+def gen_C17(rng, tier):
+    # every kind of case the other checks use (valid calls, rejected calls, malformed files), in smaller numbers
+    k = 1 if tier == 'quick' else 8
+    out = []
+    for g, n in ((gen_C01, 150), (gen_C02, 150), (gen_C03, 120), (gen_C04, 150), (gen_C05, 150), (gen_C06, 100), (gen_C07, 250), (gen_C08, 250), (gen_C09, 120),
+                 (gen_C10, 150), (gen_C11, 250), (gen_C12, 250), (gen_C13, 200), (gen_C14, 150), (gen_C15, 250), (gen_C19, 100)):
+        out += _sample(rng, g(rng, 'quick'), n * k)
+    out += [c for c in G.histories(rng, 200 * k, ['D', 'U'], ['none', 'int', 'str'], maxops=25, reject_p=0.02, force_p=0.3, dd_p=0.06)]
+    return out
+CXX_MATRIX = [
+    dict(tag='gxx_O0_debugstl', flags=['g++', '-std=c++14', '-O0', '-g', '-D_GLIBCXX_DEBUG', '-D_GLIBCXX_DEBUG_PEDANTIC']),
+    dict(tag='gxx_O2', flags=['g++', '-std=c++14', '-O2', '-D_GLIBCXX_ASSERTIONS']),
+    dict(tag='clang_O2_asan_ubsan', flags=['clang++', '-std=c++14', '-O2', '-g', '-fsanitize=address,undefined', '-fno-sanitize-recover=all']),
+]
+CXX_MATRIX_THOROUGH = CXX_MATRIX + [
+    dict(tag='clang_O0_debugstl', flags=['clang++', '-std=c++14', '-O0', '-g', '-D_GLIBCXX_DEBUG']),
+    dict(tag='gxx_O3_asan_ubsan', flags=['g++', '-std=c++14', '-O3', '-g', '-fsanitize=address,undefined', '-fno-sanitize-recover=all']),
+    dict(tag='gxx_O0_valgrind', flags=['g++', '-std=c++14', '-O0', '-g'], wrap=['valgrind', '-q', '--error-exitcode=97', '--exit-on-first-error=yes'], sample=1500),
+]
+def kind_histogram(cases):
+    h = {}
+    for c in cases: k = c.split()[0]; h[k] = h.get(k, 0) + 1
+    return h
+
 PROPS = {
+ 'C17': dict(harness=['classes', 'multi', 'paths', 'io'], route=route_all, gen=gen_C17, shrink=None, shards=4, histogram=kind_histogram,
+             matrix=lambda tier: CXX_MATRIX if tier == 'quick' else CXX_MATRIX_THOROUGH, nontrivial=lambda c, I: len(c.split(':', 1)[1].strip()) > 8,
+             model_name='all class / path-search / IO models (every call defined: no UBk / Undef outcome)',
+             rule='a sample of the cases of every other check (histories on all eight classes incl. forced insertions and rejected calls, equality / conversion / constructor / subgraph '
+                  'cases, path searches and Dijkstra, well-formed, truncated and malformed files) run (i) in the base configuration g++ -O1 with ASan+UBSan and compared with the Coq models '
+                  'and spec oracles, (ii) in every configuration of the build matrix (g++ -O0 with the checked standard library _GLIBCXX_DEBUG, g++ -O2 with _GLIBCXX_ASSERTIONS, '
+                  'clang++ -O2 with ASan+UBSan; thorough adds clang++ -O0 debug STL, g++ -O3 sanitised, g++ -O0 under valgrind memcheck): every configuration must finish every case '
+                  'normally and print byte-for-byte what the base configuration printed; non-trivial = non-empty case',
+             trusted=['the sanitizers, _GLIBCXX_DEBUG and valgrind detect only the undefined behaviour they instrument; the model-level theorems cover definedness of the logic (indices, iterator positions, loop exits), the build matrix exhibits the rest on the generated cases only']),
+ 'C18': dict(harness='conc', gen=gen_C18, shrink=None, flags=['g++', '-std=c++14', '-O1', '-g', '-fsanitize=thread', '-pthread'], histogram=lambda cases: {'threads': {str(t): sum(1 for c in cases if c.split('|')[1].split()[0] == str(t)) for t in (2, 3, 4, 8, 16)}},
+             nontrivial=lambda c, I: ';' in c, model_name='ConcModel (interleaving semantics of reader threads; round-robin schedule evaluated) and the class models for the reference observation',
+             rule='graphs built by seeded histories (directed / undirected; unlabelled, int, std::string labels; sizes 0-6; forced duplicates), then T in {2,3,4,8} (thorough: to 16) threads '
+                  'x R rounds of EVERY const entry point against the one shared object: all observers and both iterators, ==, copy construction, getReversedGraph / getDirectedGraph / '
+                  'undirected-from-directed, getSubgraph / getSubgraphWithRemap, six path searches, the writers (own file per thread); each thread starts at another call so that different '
+                  'calls overlap; built with -fsanitize=thread (a reported race aborts the case); compared: the single-threaded reference observation with the Coq model and spec, the '
+                  'number of thread rounds whose results differ from the single-threaded results (model: 0), the observation after all threads joined; non-trivial = non-empty history',
+             trusted=['ThreadSanitizer (g++ 12) observes only the schedules that actually occur in the run; the absence of a data race for all schedules is not proved']),
  'C13': dict(harness='io', gen=gen_C13, shrink=None, nontrivial=io_nontrivial, model_name='IOModel text routines (getline, findEdgeFromString, stoi, to_string, name table)',
              histogram=lambda cases: {'load_cases': sum(1 for c in cases if c.startswith('TXT ')), 'name_loader_cases': sum(1 for c in cases if c.startswith('TXT ') and c.split()[3] == '1'), 'write_reload_cases': sum(1 for c in cases if c.startswith('TXTW'))},
              rule='well-formed text files from a grammar (comment lines, any mix of spaces and tabs before/between/after the two vertex tokens, optional label text, with or without final '
@@ -209,7 +266,7 @@ PROPS = {
                   'DirectedWeightedGraph or UndirectedWeightedGraph), random graphs to 7 vertices (thorough: 30), zero-weight cycles, ties, layered and grid families; '
                   'findGeodesicsDijkstra on a counting graph type; distances compared exactly with the model (which replays the implementation pop sequence and checks every pop is a '
                   'minimum of the worklist) and with Bellman-Ford on the spec side; the predecessor vector is validated against dist[v] = dist[p] + w(p,v); non-trivial = >= 2 edges'),
- 'C19': dict(harness='paths', gen=gen_C19, shrink=None, segments=seg_C19, nontrivial=_path_nontrivial, model_name='scan counters of the path-search models',
+ 'C19': dict(harness='paths', gen=gen_C19, adaptive=adaptive_C19, shrink=None, segments=seg_C19, nontrivial=_path_nontrivial, model_name='scan counters of the path-search models',
              histogram=lambda cases: {'bfs_cases': sum(1 for c in cases if c.startswith('PATH')), 'dijkstra_cases': sum(1 for c in cases if c.startswith('DJ'))},
              rule='the number of getOutNeighbours calls made by findVertexPredecessors, findAllVertexPredecessors and findGeodesicsDijkstra on a counting graph type, compared with the '
                   'scan counters of the Coq models and with the bounds V, V+E, V+E+1 (E = total length of all neighbour lists): layered graphs of width 2-3 with up to 8 (thorough 12) '
